@@ -238,9 +238,20 @@ def do_read(R, opt, data, tmp, attempt=False, **more):
             R.retain(f"{api}:{kind}", lambda: (observe_tree(t), list(t.comments)))
             return observe_tree(t), list(t.comments)
         if api == "population":
+            # two loaders over the same file, both alive: the tree handed out by the first is edited in place by its user before the
+            # second loader is asked - the second read must still return the rows of the FILE
+            t1 = Population(LazyLoadingTrees([src], **kw))[0]
+            first = (observe_tree(t1), list(t1.comments))
+            for c in ("x", "y", "z", "r"):
+                t1.get_ndata(c)[...] += 1
+            t1.get_ndata("type")[...] = 9
+            t1.comments.append("edited by the user of the first population")
             t = Population(LazyLoadingTrees([src], **kw))[0]
             R.retain(f"{api}:{kind}", lambda: (observe_tree(t), list(t.comments)))
-            return observe_tree(t), list(t.comments)
+            second = (observe_tree(t), list(t.comments))
+            R.note("population: second loader agrees with the first" if second == first else "population: second loader DIFFERS from the first")
+            del t1
+            return second
         raise ValueError(api)
 
     with swcio.caught_warnings() as w:
@@ -443,7 +454,9 @@ def gen_encodings():
 # ------------------------------------------------------------------ faults space
 
 FAULT_ROW = ["2", "3", "1.5", "0", "0", "1", "1"]
-TOKENS = ["x", "abc", "1,5", "--1", "1e", "1-2"]
+# "1_0": a digit-group separator is not part of any numeric text format (only of Python source, i.e. of int()/float()); "1 0" would be
+# one field more. nan / inf / 0x10 stay outside (numeric status debatable, see DESIGN C02)
+TOKENS = ["x", "abc", "1,5", "--1", "1e", "1-2", "1_0"]
 
 
 def _menu():
